@@ -46,6 +46,18 @@ def _fma_flags():
 
 
 FMA = _fma_flags()
+
+
+def _cpu_has(flag):
+    try:
+        return f" {flag}" in open("/proc/cpuinfo").read()
+    except OSError:
+        return True
+
+
+# a build for a target feature this CPU does not have would die of SIGILL, which is not a verdict on the code: such
+# builds are left out (and the evidence says so)
+HAS_FMA = _cpu_has("fma")
 BUILDS = {
     # name: (cargo args, RUSTFLAGS)
     "fast-nofma-release": (["--release", "--features", "fast"], ""),
@@ -59,6 +71,10 @@ BUILDS = {
     "exact-fma-release": (["--release"], FMA),
     "exact-fma-checked": (["--profile", "checked"], FMA),
 }
+
+
+def usable(build):
+    return HAS_FMA or "-fma-" not in build
 
 
 def extra_features():
@@ -85,7 +101,7 @@ ALLFEAT = "fast-nofma-allfeat"
 
 def builds_for_c20():
     """the fixed build matrix, plus one build with every unknown cargo feature switched on when the crate has any"""
-    b = sorted(BUILDS)
+    b = sorted(x for x in BUILDS if usable(x))
     if extra_features():
         b.append(ALLFEAT)
     return b
